@@ -53,7 +53,7 @@ def adversarial(c, consts, nbeh, keep):
 
 def batcher(c, max_size, max_ops, runs, ops, seed=None):
     consts = dict(MaxSize=max_size, UseTimer=True, MaxOps=max_ops)
-    r = vlib.run_tlc("Batcher", cfg=dict(constants=consts, invariants=["HandedOK", "ArmedOK", "ArmedCurrentHasBatch"]))
+    r = vlib.run_tlc("Batcher", cfg=dict(constants=consts, invariants=["HandedOK", "ArmedOK", "ArmedCurrentHasBatch", "InflightOld"]))
     c.add_tlc(r, "Batcher exhaustive %s" % json.dumps(consts))
     payload = dict(property="C20", seed=seed if seed is not None else c.seed * 31 + max_size, config=dict(MaxSize=max_size, UseTimer=True, Runs=runs, Ops=ops), mode="batcher-trace")
     res = vlib.run_harness("batcher", payload)
